@@ -153,3 +153,36 @@ Proof.
   - cbn [bind]. apply IH. exact Hr.
   - unfold u32max, u64max in *. lia.
 Qed.
+
+(* ---------------------------------------------------------------- version-info walks: termination *)
+(* after the fix the walk ends within (end - offset) + 1 iterations, whatever lengths the file declares *)
+Lemma walk_fixed_terminates :
+  forall read fuel offset end_, (N.to_nat (end_ - offset) < fuel)%nat -> walk_fixed read fuel offset end_ <> None.
+Proof.
+  intros read fuel; induction fuel as [|fuel IH]; intros offset end_ H; [lia|].
+  cbn [walk_fixed]. destruct (offset <? end_) eqn:E; [|discriminate].
+  destruct (read offset) as [len|]; [|discriminate].
+  destruct (0 <? len) eqn:El; [|discriminate].
+  apply IH. lia.
+Qed.
+
+(* finding C09-version-info-zero-length: on the pinned tree a child that declares length 0 never advances the walk;
+   no amount of fuel suffices *)
+Lemma walk_pinned_refuted :
+  forall fuel, walk_pinned (fun _ => Some 0) fuel 0 1 = None.
+Proof.
+  induction fuel as [|fuel IH]; [reflexivity|].
+  cbn [walk_pinned]. change (0 <? 1) with true. cbn iota. replace (0 + 0) with 0 by reflexivity. exact IH.
+Qed.
+
+(* on inputs whose children all declare positive lengths the two loops agree: the fix changes nothing else *)
+Lemma walk_fixed_eq_pinned :
+  forall read fuel offset end_,
+    (forall o len, read o = Some len -> 0 < len) ->
+    walk_fixed read fuel offset end_ = walk_pinned read fuel offset end_.
+Proof.
+  intros read fuel; induction fuel as [|fuel IH]; intros offset end_ H; [reflexivity|].
+  cbn [walk_fixed walk_pinned]. destruct (offset <? end_); [|reflexivity].
+  destruct (read offset) as [len|] eqn:E; [|reflexivity].
+  pose proof (H _ _ E) as Hl. destruct (0 <? len) eqn:El; [apply IH; exact H|lia].
+Qed.
